@@ -234,9 +234,7 @@ func scenario(seed int64, sn int) (int, int) {
 			}
 		}
 	}
-	if prof.pairs == 0 {
-		vh.SetGate(gate)
-	}
+	vh.SetGate(gate)
 	stopAdmin := make(chan struct{})
 	adminDone := make(chan struct{})
 	if prof.admin {
@@ -413,6 +411,8 @@ var (
 	nAlter       atomic.Int64
 	nGated       atomic.Int64
 	nGateSeq     atomic.Int64
+	nCkSeq       atomic.Int64
+	stallCk      atomic.Bool
 	nWidened     atomic.Int64
 )
 
@@ -437,6 +437,21 @@ func gate(point string, kv []any) {
 			time.Sleep(time.Duration(200+(n*7919)%1800) * time.Microsecond)
 			nWidened.Add(1)
 		}
+	case "ck.dispatch":
+		// let the checker goroutine fall behind the transactions' asynchronous
+		// output/update/delete messages now and then
+		if len(kv) > 0 {
+			switch fmt.Sprintf("%T", kv[0]) {
+			case "*db19.ckOutput", "*db19.ckUpdate", "*db19.ckDelete", "*db19.ckRead":
+				if stallCk.CompareAndSwap(true, false) {
+					time.Sleep(1500 * time.Microsecond)
+					return
+				}
+				if n := nCkSeq.Add(1); n%3 == 0 {
+					time.Sleep(time.Duration(100+(n*7919)%400) * time.Microsecond)
+				}
+			}
+		}
 	case "alter.built":
 		if ch := alterBuilt.Load(); ch != nil {
 			select {
@@ -445,6 +460,12 @@ func gate(point string, kv []any) {
 				close(*ch)
 			}
 		}
+		// the new indexes are built, the table is still locked exclusively: keep it that
+		// way for a while so that update transactions begin, end and (try to) write the
+		// table inside the window
+		if n := nGateSeq.Add(1); n%3 != 0 {
+			time.Sleep(time.Duration(1000+(n*7919)%7000) * time.Microsecond)
+		}
 	}
 }
 
@@ -452,6 +473,7 @@ func adminLoop(r *rand.Rand, stop, done chan struct{}) {
 	defer close(done)
 	vh.SetGate(gate)
 	have := false
+	zstate := 0
 	for {
 		select {
 		case <-stop:
@@ -462,9 +484,16 @@ func adminLoop(r *rand.Rand, stop, done chan struct{}) {
 		if have {
 			cmd = "alter t1 drop index(w)"
 		}
+		// or: a new column together with an index on it (on the populated table), later
+		// dropped again in two steps
+		zstep := r.Intn(3) == 0
+		if zstep {
+			cmd = []string{"alter t1 create (z) index(z)", "alter t1 drop index(z)", "alter t1 drop (z)"}[zstate]
+		}
+		building := !have && !zstep || zstep && zstate == 0
 		ch := make(chan struct{})
 		alterBuilt.Store(&ch)
-		alterPending.Store(!have && r.Intn(4) != 0)
+		alterPending.Store(building && r.Intn(4) != 0)
 		res := "ok"
 		func() {
 			defer func() {
@@ -476,7 +505,11 @@ func adminLoop(r *rand.Rand, stop, done chan struct{}) {
 		}()
 		alterPending.Store(false)
 		if res == "ok" {
-			have = !have
+			if zstep {
+				zstate = (zstate + 1) % 3
+			} else {
+				have = !have
+			}
 			nAlter.Add(1)
 		}
 		tr.Emit(vh.E("Admin", "cmd", cmd, "res", res))
@@ -607,6 +640,12 @@ func stateEvent(kind string, c int, oldM, newM *meta.Meta, all bool) *vh.Ev {
 
 func projectTable(m *meta.Meta, name string, ti *meta.Info) map[string]any {
 	ts := m.GetRoSchema(name)
+	ncols := len(ts.Columns)
+	for _, td := range prof.tables {
+		if td.name == name {
+			ncols = td.ncols // columns added by the admin loop are always empty
+		}
+	}
 	deltas := [][]int{}
 	for _, d := range ti.Deltas {
 		deltas = append(deltas, []int{d.Nrows, int(d.Size)})
@@ -630,7 +669,7 @@ func projectTable(m *meta.Meta, name string, ti *meta.Info) map[string]any {
 				keyok = 0
 			}
 			prev, first = key, false
-			btrows = append(btrows, append(rowOf(rec, len(ts.Columns)), len(rec)))
+			btrows = append(btrows, append(rowOf(rec, ncols), len(rec)))
 		}
 		lay := []any{}
 		for _, l := range layers {
@@ -656,7 +695,7 @@ func projectTable(m *meta.Meta, name string, ti *meta.Info) map[string]any {
 					keyok = 0
 				}
 				prev, first = key, false
-				ents = append(ents, append(append([]int{op}, rowOf(rec, len(ts.Columns))...), len(rec)))
+				ents = append(ents, append(append([]int{op}, rowOf(rec, ncols)...), len(rec)))
 			}
 			lay = append(lay, ents)
 		}
@@ -861,7 +900,7 @@ func raceTemplate(r *rand.Rand) int {
 		}
 		return td
 	}
-	kind := []int{0, 1, 2, 2, 3, 3, 2, 3, 4, 5}[r.Intn(10)]
+	kind := []int{0, 1, 2, 2, 3, 3, 2, 3, 4, 5, 8, 8}[r.Intn(12)]
 	if hasFk && r.Intn(2) == 0 {
 		kind = 6 + r.Intn(2)
 	}
@@ -943,6 +982,23 @@ func raceTemplate(r *rand.Rand) int {
 		} else {
 			a.finish()
 		}
+	case 8: // A inserts two rows back to back while the checker goroutine is behind; B inserts the first key
+		td := prof.tables[r.Intn(len(prof.tables))]
+		row1, row2 := a.freshRow(td), a.freshRow(td)
+		stallCk.Store(true)
+		a.output2(td, row1, row2)
+		stallCk.Store(false)
+		rowb := b.randRowPlain(td)
+		ts := a.schema(td)
+		if k := a.keyIndex(ts); k >= 0 {
+			for _, col := range ts.Indexes[k].Columns {
+				ci := colIndex(ts.Columns, col)
+				rowb[ci] = row1[ci]
+			}
+		}
+		b.force = rowb
+		b.output(td)
+		a.finish()
 	case 5: // A scans a whole table (sees it empty or not); B inserts or deletes and commits; A writes
 		td := prof.tables[r.Intn(len(prof.tables))]
 		a.forceScan = []int{0, 1, 0}
@@ -1364,6 +1420,24 @@ func (c *client) output(td tableDef) {
 	c.armTrigger()
 	res := c.guard(func() { c.ut.Output(c.th, td.name, recOf(row)) })
 	tr.Emit(vh.E("Output", "t", c.id, "tbl", td.name, "row", row, "len", recLen(row), "res", res, "trig", c.trigs()))
+}
+
+// two inserts with nothing in between (the events are logged afterwards)
+func (c *client) output2(td tableDef, row1, row2 []int) {
+	c.armTrigger()
+	res1 := c.guard(func() { c.ut.Output(c.th, td.name, recOf(row1)) })
+	trig1 := c.trigs()
+	res2 := ""
+	var trig2 any
+	if !c.dead {
+		c.armTrigger()
+		res2 = c.guard(func() { c.ut.Output(c.th, td.name, recOf(row2)) })
+		trig2 = c.trigs()
+	}
+	tr.Emit(vh.E("Output", "t", c.id, "tbl", td.name, "row", row1, "len", recLen(row1), "res", res1, "trig", trig1))
+	if res2 != "" {
+		tr.Emit(vh.E("Output", "t", c.id, "tbl", td.name, "row", row2, "len", recLen(row2), "res", res2, "trig", trig2))
+	}
 }
 
 // pick an existing row through a scan step on the first index (this registers a read)
